@@ -106,7 +106,13 @@ func (k Keeper) RouteExactAmountOut(ctx sdk.Context,
 		// Calculate the total discounted swap fee
 		totalDiscountedSwapFee = totalDiscountedSwapFee.Add(swapFee)
 
-		_tokenInAmount, swapErr := k.InternalSwapExactAmountOut(ctx, sender, recipient, pool, route.TokenInDenom, insExpected[i], _tokenOut, swapFee)
+		// recipient is the same as the sender until the last pool: the output of an intermediate hop is the input of the next one
+		actualRecipient := sender
+		if i == len(routes)-1 {
+			actualRecipient = recipient
+		}
+
+		_tokenInAmount, swapErr := k.InternalSwapExactAmountOut(ctx, sender, actualRecipient, pool, route.TokenInDenom, insExpected[i], _tokenOut, swapFee)
 		if swapErr != nil {
 			return math.Int{}, math.LegacyZeroDec(), math.LegacyZeroDec(), swapErr
 		}
